@@ -24,6 +24,7 @@ def alphabet(level):
             ('classImplements', 'K0', 2), ('classImplementsOnly', 'K1', 0), ('classImplements', 'KU', 1),
             ('directlyProvides', 2, (1,)), ('directlyProvides', 2, ()), ('alsoProvides', 0, 3),
             ('noLongerProvides', 2, 2), ('alsoProvides', 3, 1)]
+    ops += [('rebuild', 0), ('rebuild', 1)]       # public since 5.3.0: replaces every internal structure, re-registers everything
     return ops
 
 
